@@ -116,6 +116,11 @@ func run(o c07.Opt, h [][]pipeline.Change, upto int) ([]state, error) {
 				st.findings = append(st.findings, c07.Finding{Kind: "cfgnorm-problem-missed-by-scan", What: strings.Join(nf.Problems, "; ")})
 			}
 		}
+		if st.applyErr != nil {
+			// the controller could not write the configuration at all
+			msg := regexp.MustCompile(`/verif/[^ :]*|/proc/self/fd/\d+`).ReplaceAllString(st.applyErr.Error(), "")
+			st.findings = append(st.findings, c07.Finding{Kind: "update-error", What: "the update failed: " + msg})
+		}
 		if fake != nil {
 			ex, _ := fake.Snapshot()
 			st.cmds = len(ex)
@@ -350,6 +355,7 @@ func writeCorpus() {
 
 func main() {
 	wc := flag.Bool("write-corpus", false, "write the built-in corpus to /verif/corpus/C07 and exit")
+	forceShrink := flag.Bool("shrink", false, "shrink the failing history also when replaying")
 	dump = flag.Bool("dump", false, "print the configuration files written after the last batch of each history")
 	o := hx.Parse()
 	if *wc {
@@ -461,10 +467,6 @@ func main() {
 			res.OracleChecks++
 			if st.applyErr != nil {
 				res.Count("update_error")
-				if !reported["C07/update-error"] {
-					reported["C07/update-error"] = true
-					res.Fail(hx.Failure{Key: "C07/update-error", What: fmt.Sprintf("batch %d: the update failed: %v", bi, st.applyErr), Input: input})
-				}
 			}
 			if st.scanErr != nil {
 				res.Fail(hx.Failure{Key: "C07/scan-error", What: st.scanErr.Error(), Input: input})
@@ -502,7 +504,7 @@ func main() {
 					continue
 				}
 				seenHere[key] = true
-				isCorpus := strings.HasPrefix(sc.origin, "corpus") || sc.origin == "replay"
+				isCorpus := (strings.HasPrefix(sc.origin, "corpus") || sc.origin == "replay") && !*forceShrink
 				if reported[key] && !isCorpus {
 					continue
 				}
